@@ -202,6 +202,78 @@ fn one_call(
     }
 }
 
+/// `hbs_lms::sign_mut` (only in builds with the library's fast_verify feature): the same
+/// protocol must hold, and a call that must fail because of its message buffer (too short, or a
+/// trailer that is not blank) must not reach the callback at all.
+#[cfg(feature = "fv")]
+fn sign_mut_calls(w: &mut Worker, c: &Case, blob: &[u8], state: &str, live: bool) {
+    let cfg = lcfg(c.alg);
+    let n = cfg.n();
+    let lvs = model::params::levels_to_string(&c.levels);
+    let want = expected_successor(&cfg, blob);
+    let mut msgs: Vec<(&str, Vec<u8>)> = Vec::new();
+    let mut good = format!("c04 sign_mut {state}").into_bytes();
+    good.extend(std::iter::repeat(0u8).take(n));
+    msgs.push(("valid", good.clone()));
+    msgs.push(("too-short", vec![0u8; n]));
+    msgs.push(("empty", vec![]));
+    let mut dirty = good.clone();
+    let l = dirty.len();
+    dirty[l - 1 - (state.len() % n)] = 0x01;
+    msgs.push(("trailer-not-blank", dirty));
+    for (kind, m) in msgs {
+        for cb in [Cb::Accept, Cb::Refuse] {
+            let mut buf = m.clone();
+            let (rec, _) = libcall::sign_mut(c.alg, blob, &mut buf, cb);
+            let r = &mut w.report;
+            r.eval();
+            r.count(&format!("sign_mut_{}", rec.result.kind()), 1);
+            let id = format!("{}:{}:{}:cb={:?}:sign_mut:{kind}", c.alg.name(), lvs, state_class(state), cb);
+            let replay = || J::obj().with("property", J::s("C04")).with("hash", J::s(c.alg.name())).with("levels", J::s(&lvs)).with("private_key", J::hex(blob)).with("state", J::s(state)).with("callback", J::s(&format!("{cb:?}"))).with("entry", J::s("sign_mut")).with("message", J::hex(&m));
+            let must_fail = kind != "valid" || !live;
+            if rec.cb_args.len() > 1 {
+                r.violation(&format!("C04:callback_twice:{id}"), &format!("update callback invoked {} times in one sign_mut call", rec.cb_args.len()), replay());
+            }
+            match &rec.result {
+                Out::Ok(_) => {
+                    if must_fail && !state.starts_with("counter=lifetime+") {
+                        r.violation(&format!("C04:released_on_error_path:{id}"), "sign_mut released a signature for a call that had to fail", replay());
+                    }
+                    if cb == Cb::Refuse {
+                        r.violation(&format!("C04:released_after_refusal:{id}"), "sign_mut returned a signature although the update callback reported failure", replay());
+                    }
+                    if rec.cb_args.len() != 1 || Some(&rec.cb_args[0]) != want.as_ref() {
+                        r.violation(&format!("C04:wrong_successor:{id}"), "sign_mut: callback not invoked exactly once with the complete successor key", replay());
+                    }
+                    r.count("released", 1);
+                }
+                Out::Err => {
+                    if (kind != "valid" || (!live && !state.starts_with("counter=lifetime+"))) && !rec.cb_args.is_empty() {
+                        r.violation(&format!("C04:callback_on_error_path:{id}"), &format!("sign_mut: update callback invoked ({}x) although no signature could be produced ({kind} message buffer, {state})", rec.cb_args.len()), replay());
+                    }
+                    if !must_fail && cb == Cb::Accept {
+                        r.violation(&format!("C04:live_key_refused:{id}"), "sign_mut failed on a live key with a valid message buffer", replay());
+                    }
+                    if !must_fail && cb == Cb::Accept && !rec.cb_args.is_empty() {
+                        r.violation(&format!("C04:callback_then_error:{id}"), "sign_mut: callback accepted the new key but no signature was returned", replay());
+                    }
+                    r.count("withheld", 1);
+                }
+                Out::Panic(p) => {
+                    if !rec.cb_args.is_empty() {
+                        r.violation(&format!("C04:callback_then_panic:{id}"), &format!("sign_mut: update callback invoked, then panic at {}", p.site()), replay());
+                    }
+                    r.note(&format!("cross observation (C15): sign_mut panicked at {}", p.site()));
+                }
+            }
+            r.distinct(&format!("{}|{}|{}|{:?}|sign_mut|{kind}", c.alg.name(), lvs, state, cb));
+        }
+    }
+}
+
+#[cfg(not(feature = "fv"))]
+fn sign_mut_calls(_w: &mut Worker, _c: &Case, _blob: &[u8], _state: &str, _live: bool) {}
+
 fn state_class(state: &str) -> String {
     if let Some(rest) = state.strip_prefix("counter=") {
         if rest == "0" {
@@ -242,6 +314,7 @@ fn run_case(c: Case, w: &mut Worker) {
             one_call(w, &c, &blob, &state, true, Cb::Accept, auxk, &valid, SignEntry::TrySignAux, &kp.vk);
         }
         one_call(w, &c, &blob, &state, true, Cb::Accept, AuxKind::None, &valid, SignEntry::TrySign, &kp.vk);
+        sign_mut_calls(w, &c, &blob, &state, true);
         // advance through the real callback chain
         let rec = libcall::sign_bytes(c.alg, &blob, b"advance", Cb::Accept, None);
         match rec.cb_args.first() {
@@ -292,6 +365,7 @@ fn run_case(c: Case, w: &mut Worker) {
         }
         one_call(w, &c, &b, &state, false, Cb::Accept, AuxKind::None, &valid, SignEntry::TrySign, &kp.vk);
         one_call(w, &c, &b, &state, false, Cb::Accept, AuxKind::FreshZero, &valid, SignEntry::TrySignAux, &kp.vk);
+        sign_mut_calls(w, &c, &b, &state, false);
     }
     // unusable aux buffers on a live key must not break the protocol either
     let live0 = hss::make_blob(0, &c.levels, &c.seed);
@@ -329,6 +403,12 @@ pub fn run(ctx: &Ctx) -> Report {
         .into();
     if rep.counter("released") == 0 || rep.counter("withheld") == 0 {
         rep.inconclusive("did not observe both released and withheld signatures");
+    }
+    if cfg!(feature = "fv") {
+        rep.rule.push_str(" ; this build has the library's fast_verify feature: every state is additionally driven through hbs_lms::sign_mut with a valid, a too short, an empty and a non-blank-trailer message buffer x callback outcome");
+        if rep.counter("sign_mut_ok") == 0 || rep.counter("sign_mut_err") == 0 {
+            rep.inconclusive("sign_mut: did not observe both released and withheld signatures");
+        }
     }
     if rep.counter("callback_invocations_Refuse") == 0 {
         rep.inconclusive("no refusing callback invocation observed");
